@@ -456,6 +456,14 @@ class StereoCondensedReactionGraph(StereoMolGraph, CondensedReactionGraph):
                     for change, stereo in stereo_change.items()
                 }
                 enantiomer.set_atom_stereo_change(**stereo_change_inverted)
+        for bond, bond_change_dict in self._bond_stereo_change.items():
+            bond_change_inverted = {
+                change.value: stereo.invert()
+                for change, stereo in bond_change_dict.items()
+                if stereo is not None
+            }
+            if bond_change_inverted:
+                enantiomer.set_bond_stereo_change(**bond_change_inverted)
         return enantiomer
 
     def _to_rdmol(
